@@ -31,7 +31,7 @@ GROUPS = [["point", "multipoint", "line", "ring"], ["multiline", "polygon"], ["m
 
 def shards(tier, seed):
     subs = A.pick_subtypes(tier, seed, n_quick=3)
-    n = 60 if tier == "quick" else 800
+    n = 120 if tier == "quick" else 1200
     out = []
     for kinds in GROUPS:
         for b in ("J", "B"):
